@@ -7,7 +7,7 @@ lines = ["### 9.4 Sensitivity: which checks catch which changes", "",
          "Produced by `./tools_mutants.py matrix --tests` (quick tier, VERIF_SEED=1, regression replays off;",
          "each patch applied to a scratch copy of `/repo/d42`, the repository's own suite run against the same copy).",
          "`suite` = does the unedited test suite still pass with the change. Reverts of the fix commits restore a",
-         "genuine defect; `seeded/*` are the sub-agents' changes (A,B first round; C,D second; E,F third; G,H fourth; I,J fifth; K,L sixth; M,N seventh); `own-*` are",
+         "genuine defect; `seeded/*` are the sub-agents' changes (A,B first round; C,D second; E,F third; G,H fourth; I,J fifth; K,L sixth; M,N seventh; O,P eighth); `own-*` are",
          "hand-written must-kill mutants.", "",
          "The four changes that no target check catches are the ones listed as deliberately uncovered in 9.3d (C02-E, C05-F,",
          "C08-F, C17-E); C04-G is obsolete (9.3e). Detection is measured at VERIF_SEED=1 only; after the generators were",
